@@ -16,8 +16,11 @@ func rulesC19(c *Ctx, r *Report) {
 	r.explain("Decides: (PURE) PreOrder, PostOrder and traverse never write the tree (nodes, Children slices) — directly or through callees such as sorting/reversing helpers; (ACYCLIC) no function reachable from PreOrder/PostOrder is on a call-graph cycle — the traversal does not recurse, so depth is bounded by the heap, not the stack; (STALE-ELEM) no pointer into an element of the explicit stack is used after an append to that stack (which may reallocate and leave the pointer in the old array); (REENTRANT) the iterator body assigns to no captured variable, so the same iterator value can run twice (nested or via iter.Pull) without sharing a stack; (YD1) no callback after a false result; (STEP) the explicit-stack step: a node is yielded in pre-order exactly when its child index is 0 and in post-order exactly when its child index equals len(Children), the child pushed is Children[i] of the same node, and i advances by one per push. Not decided: that these steps compose to the classic recursive order (exactly once, parents before/after descendants) as an equality of sequences.")
 	e := effFor(c)
 	var roots []*ssa.Function
-	for _, name := range []string{"(*Node).PreOrder", "(*Node).PostOrder", "(*Node).traverse"} {
+	for _, name := range []string{"(*Node).PreOrder", "(*Node).PostOrder", "role:newick.traverse"} {
 		f := c.fn("formats/newick", name)
+		if strings.HasPrefix(name, "role:") {
+			f = c.role(strings.TrimPrefix(name, "role:"))
+		}
 		if f == nil {
 			r.undecided("PURE", "formats/newick."+name, "anchor", "", "function not found")
 			continue
@@ -145,7 +148,7 @@ func ruleStaleElem(c *Ctx, r *Report, f *ssa.Function) {
 
 // rulesTraverseStep (STEP): the explicit-stack step function of traverse.
 func rulesTraverseStep(c *Ctx, r *Report) {
-	outer := c.fn("formats/newick", "(*Node).traverse")
+	outer := c.role("newick.traverse")
 	if outer == nil || len(outer.AnonFuncs) != 1 {
 		r.undecided("STEP", "formats/newick.(*Node).traverse", "anchor", "", "traverse with one iterator literal not found")
 		return
@@ -173,9 +176,9 @@ func rulesTraverseStep(c *Ctx, r *Report) {
 	var pre, post *ycall
 	for i := range ys {
 		g := ys[i].guard
-		if strings.Contains(g, "!load(FV:pre)") {
+		if strings.Contains(g, "!^P1") {
 			post = &ys[i]
-		} else if strings.Contains(g, "load(FV:pre)") {
+		} else if strings.Contains(g, "^P1") {
 			pre = &ys[i]
 		}
 	}
